@@ -118,7 +118,11 @@ impl Property for C08 {
                 // an area that ends exactly at the top of the address space
                 0u64.wrapping_sub(len.max(1))
             } else {
-                cursor += 0x1000 * (1 + t.below(4)) + t.below(16);
+                // every third area directly follows its predecessor (no gap): an access that runs past the
+                // end of its area must fail even when the next byte is mapped
+                if !(k > 0 && areas.last().map_or(false, |a| a.1 > 0) && t.below(3) == 0) {
+                    cursor += 0x1000 * (1 + t.below(4)) + t.below(16);
+                }
                 let s = cursor;
                 cursor += len;
                 s
@@ -190,6 +194,17 @@ impl Property for C08 {
                 addr.wrapping_sub(a.start).min(a.start.wrapping_sub(addr)) < 16 || addr.wrapping_add(len).wrapping_sub(e).min(e.wrapping_sub(addr.wrapping_add(len))) < 16
             });
             let extreme = addr > u64::MAX - 64 || len > (1 << 31);
+            let crosses = len > 0 && hit.is_none() && {
+                let home = model.iter().find(|a| addr >= a.start && addr - a.start < a.data.len() as u64);
+                let home_end = home.and_then(|a| a.start.checked_add(a.data.len() as u64));
+                match (home_end, addr.checked_add(len)) {
+                    (Some(he), Some(e)) => e > he && model.iter().any(|b| b.data.len() > 0 && b.start == he),
+                    _ => false,
+                }
+            };
+            if crosses {
+                classes.push("runs-into-adjacent-area");
+            }
             if edge || extreme {
                 nontrivial = true;
                 classes.push(if extreme { "extreme-address-or-length" } else { "edge-access" });
@@ -337,10 +352,10 @@ impl Property for C08 {
     }
 
     fn rule(&self) -> String {
-        "cases: layouts of 1–5 areas (sizes 0…0x3000, one possibly ending at 2^64) and histories of ≤39 operations — typed API writes/reads of 1/2/4/8/16 bytes, byte-slice writes/reads, and guest MOV/MOVUPS loads and stores executed with step() — at addresses inside, at first/last bytes, around both edges, at 0/2^63/2^64−k and uniform, with lengths incl. 0, area size±1, 2^32, 2^63, 2^64−1; a byte-map model decides success and contents; the full contents of every area are compared with the model after every operation; non-trivial = a write followed by an overlapping read of another width, an access within 16 bytes of an edge, or an extreme address/length; distinct by hash of the history".into()
+        "cases: layouts of 1–5 areas (sizes 0…0x3000, one possibly ending at 2^64, a third of them directly adjacent to their predecessor) and histories of ≤39 operations — typed API writes/reads of 1/2/4/8/16 bytes, byte-slice writes/reads, and guest MOV/MOVUPS loads and stores executed with step() — at addresses inside, at first/last bytes, around both edges, at 0/2^63/2^64−k and uniform, with lengths incl. 0, area size±1, 2^32, 2^63, 2^64−1; a byte-map model decides success and contents; the full contents of every area are compared with the model after every operation; non-trivial = a write followed by an overlapping read of another width, an access within 16 bytes of an edge, or an extreme address/length; distinct by hash of the history".into()
     }
     fn required_classes(&self, _tier: Tier) -> Vec<String> {
-        vec!["in-bounds".into(), "out-of-bounds".into(), "edge-access".into(), "extreme-address-or-length".into(), "write-then-overlapping-read-of-other-width".into()]
+        vec!["in-bounds".into(), "out-of-bounds".into(), "edge-access".into(), "extreme-address-or-length".into(), "write-then-overlapping-read-of-other-width".into(), "runs-into-adjacent-area".into()]
     }
     fn assumptions(&self) -> Vec<String> {
         vec!["zero-length accesses are only required not to crash and not to change state (the statement leaves their verdict open)".into(), "area creation itself is C10's subject: a layout entry that is rejected is simply absent from the model".into()]
